@@ -1137,7 +1137,9 @@ def _finalize_std(df, count_column, sum_column, sum2_column, **kwargs):
 
 
 def _cum_agg_aligned(part, cum_last, index, columns, func, initial):
+    # A group that only holds missing values so far contributes the initial value
     align = cum_last.reindex(part.set_index(index).index, fill_value=initial)
+    align = align.fillna(initial)
     align.index = part.index
     return func(part[columns], align)
 
@@ -1145,8 +1147,8 @@ def _cum_agg_aligned(part, cum_last, index, columns, func, initial):
 def _cum_agg_filled(a, b, func, initial):
     union = a.index.union(b.index)
     return func(
-        a.reindex(union, fill_value=initial),
-        b.reindex(union, fill_value=initial),
+        a.reindex(union, fill_value=initial).fillna(initial),
+        b.reindex(union, fill_value=initial).fillna(initial),
         fill_value=initial,
     )
 
